@@ -9,7 +9,7 @@ P=$1; K=$2; PKG=$3; RE=${4:-.}
 SRC=/tmp/wt_$P/_seeded/$K
 DST=/verif/seeded/$P-$K
 mkdir -p $DST
-cp $SRC/patch.diff $SRC/notes.md $DST/ 2>/dev/null
+[ -n "${KEEP_PATCH:-}" ] || cp $SRC/patch.diff $DST/ 2>/dev/null; cp $SRC/notes.md $DST/ 2>/dev/null
 cp $SRC/demo_test.go $DST/ 2>/dev/null || cp $SRC/*_test.go $DST/ 2>/dev/null
 W=/tmp/confirm_${P}_${K}
 git -C /repo worktree add -q --detach $W HEAD || exit 2
